@@ -1,6 +1,7 @@
 //! Verification harness for pest: drives the real implementation for the TLA+ conformance
 //! checks of /verif (see DESIGN.md).  `vh <subcommand> [--key value]...`
 mod c01;
+mod c05;
 mod gen;
 mod peg;
 mod stack;
@@ -23,6 +24,7 @@ fn main() {
     let rest2: Vec<String> = rest.to_vec();
     match sub {
         "c01-emit" => big_stack(move || c01::emit(&rest2)),
+        "c05-emit" => big_stack(move || c05::emit(&rest2)),
         "c01-replay" => big_stack(move || c01::replay(&rest2)),
         "stack-replay" => stack::replay(rest),
         "stack-emit" => stack::emit(rest),
